@@ -97,7 +97,7 @@ def _gen_cases(tier, seed):
                     if ok:
                         yield dict(i=i, fmt=fmt, ai=bool((i // 7) % 3 == 0), ops=[[0, ALPHABET[s][0], ALPHABET[s][1]] for s in seq])
                         i += 1
-    nrand = 6000 if tier == "quick" else 26000
+    nrand = 20000 if tier == "quick" else 40000
     for j in range(nrand):
         rng = common.rng_for("C18", seed, j)
         fmt = FMTS[j % len(FMTS)]
